@@ -170,7 +170,7 @@ func runC08(c *Ctx) {
 			gi := g.Info()
 			sent := rootObj(gi, s.Send.Value)
 			ok, _ := g.CFG().Guarded(g.CFG().LocOf(s.Send), func(ft eng.Fact) bool {
-				call, truth, isCall := ft.CallFact("var:" + tryAdd.Name())
+				call, truth, isCall := ft.CallFact("var:" + eng.VarName(tryAdd))
 				if !isCall || !truth || len(call.Args) != 1 || !eng.IsObj(gi, call.Fun, tryAdd) {
 					return false
 				}
@@ -218,7 +218,7 @@ func runC08(c *Ctx) {
 						return "present", true, true
 					}
 					if x, nonEmpty, ok := emptiness(gi, leaf); ok {
-						if s, isSel := eng.Unparen(x).(*ast.SelectorExpr); isSel && s.Sel.Name == "Addrs" {
+						if s, isSel := eng.Unparen(x).(*ast.SelectorExpr); isSel && eng.NameOf(s.Sel) == "Addrs" {
 							if oldObj != nil && eng.IsObj(gi, s.X, oldObj) {
 								return "oldHasAddrs", nonEmpty, true
 							}
@@ -357,7 +357,7 @@ func runC08(c *Ctx) {
 		}
 	}
 	c.Rule("R1")
-	c.Check("provider sends", 0, sends >= 4, "4 provider sends (local+remote, both clients) exist", "found "+itoa(sends))
+	c.Check("provider sends", 0, sends >= 2, "provider sends (local+remote, both clients) exist", "found "+itoa(sends))
 	// the public entry points close the channel on the early branch and otherwise start the routine
 	c.Rule("R6")
 	for _, fn := range []string{"(*dht.IpfsDHT).FindProvidersAsync", "(*dht/fullrt.FullRT).FindProvidersAsync"} {
